@@ -164,7 +164,12 @@ impl Rasn {
         if constraints.is_empty() {
             return Ok(TokenStream::new());
         }
-        let per_constraints = per_visible_range_constraints(signed, constraints)?;
+        let mut per_constraints = per_visible_range_constraints(signed, constraints)?;
+        // The implicit lower bound of 0 only applies to sizes. A value constraint on a
+        // referenced type can reach below zero.
+        if !signed && !per_constraints.is_size_constraint() {
+            per_constraints = per_visible_range_constraints(true, constraints)?;
+        }
         let range_prefix = if per_constraints.is_size_constraint() {
             quote!(size)
         } else {
